@@ -364,6 +364,15 @@ func compare(g, c compat.Matcher, in []byte, ns []int) string {
 		return ""
 	}
 	checks := []func() string{
+		func() string {
+			type stringer interface{ String() string }
+			gs, ok1 := g.(stringer)
+			cs, ok2 := c.(stringer)
+			if !ok1 || !ok2 {
+				return ""
+			}
+			return eq("String", gs.String(), cs.String())
+		},
 		func() string { return eq("Match", g.Match(in), c.Match(in)) },
 		func() string { return eq("MatchString", g.MatchString(s), c.MatchString(s)) },
 		func() string {
